@@ -262,11 +262,15 @@ func call(c *chain, cr *carrier, k int, e error) (o callObs) {
 	o.K = k
 	ctx := context.Background()
 	r := c.clients[k-1]
+	c.fl.wait()
 	c.b.set(script{})
+	c.b.forget()
 	id := ""
 	if cr.prep != nil {
 		var err error
-		if id, err = cr.prep(ctx, r); err != nil {
+		id, err = cr.prep(ctx, r)
+		c.fl.wait()
+		if err != nil {
 			o.Bad = err.Error()
 			return
 		}
@@ -275,6 +279,10 @@ func call(c *chain, cr *carrier, k int, e error) (o callObs) {
 	c.b.set(script{point: cr.Point, err: e, big: cr.Big})
 	var err error
 	panicked, pv := hx.Recover(func() { err = cr.run(ctx, r, id) })
+	// the caller is back; handlers may still be running (a response flushed before its handler
+	// returned, deferred BlobWriter.Close calls): let them finish under the script of THIS call,
+	// so that nothing of it reaches the records or the backend state of the next one
+	c.fl.wait()
 	c.b.set(script{})
 	if panicked {
 		o.Bad = "client panic: " + pv
